@@ -330,6 +330,13 @@ class Interp:
                     return t[1] == v
                 return ("op", "==", t, C(v))
             path = e.get("def")
+            consts = getattr(self.prog, "inlined_consts", None) or {}
+            if path in consts and str(e.get("res", "")).startswith("Const"):
+                # a named constant used as a pattern is the literal it stands for
+                v = consts[path]
+                if t[0] == "c":
+                    return t[1] == v
+                return ("op", "==", t, C(v))
             if t[0] == "var":
                 return t[1] == path
             return ("is", t, path)
